@@ -214,21 +214,21 @@ claim("C16",
       "every used id at its point of use (cid redirection through hash maps), select arity.",
       "toposort()'s HashMap index / outer loop, lower_table_decl and the Lowerer's node_mapping are not under contract.")
 
-prop("C13", ["span_units", "compose_errors"],
+prop("C13", ["span_units", "compose_errors", "span_frame"],
      not_covered="ariadne rendering (the quoted line), multi-file source ids, resolver / SQL-generation errors (their spans are copied from parser spans)")
 claim("C13",
       "PARTIAL. Proved on the real code: convert_lexer_error stores a span in CHARACTER units - the character positions of the byte offsets chumsky "
       "reported - with start <= end <= number of characters of the source and the given source id (SU3a-d, helpers inlined); compose_location reports "
       "exactly the line/column of span.start and span.end (SU1a-c); the parser's map_span yields the BYTE range of the tokens (SU2m). The linking "
       "obligation 'a byte offset inside the source is a character offset inside the source' (SU2) fails: recorded finding (panic / misplaced caret on "
-      "non-ASCII sources). NOT proved: rendering, multi-file ids.",
+      "non-ASCII sources). a span that ErrorMessages::composed hands on names a source of the tree (compose_errors CP4); the end-of-input span and every span of at least one token has start <= end (span_units SU2o); FRAME (syntactic, whole tree): the functions that MAKE a span - a `Span { .. }` value, Span::new, span arithmetic - are the lexer's, the parser's and span.rs's, each with its contract or reason; everything else copies spans (span_frame SF.maker rows: a new maker needs a contract of its own). NOT proved: rendering, multi-file ids.",
       "UTF-8 text model (char_len <= byte_len, monotone prefix counts), chumsky's span contract, ariadne's get_offset_line and error constructors are "
       "assumed by contract.")
 
 
 def _safety(name):
     lab = name.split(".", 1)[1]
-    if lab.startswith("UA.") or lab.startswith("HP."):
+    if lab.startswith("UA.") or lab.startswith("HP.") or lab.startswith("SF."):
         return True
     return lab.endswith(".safety") or lab.endswith(".overflow") or lab.endswith(".div0") or lab.endswith(".decreases") or lab.endswith(".unreachable") or lab.endswith(".unwrap") or lab.endswith(".index") or lab.endswith(".loop_exit") or lab.endswith(".precondition") \
         or lab in ("SU2", "TR3s", "TR3e", "TR3o", "SB1", "SB2", "TS0", "WF1b", "XA1", "LN1", "TU1", "TU2", "SR1", "SR2", "SQ1", "SQ2", "EN1", "EN2", "EN3", "DL1", "NB1", "WS1", "IP1", "NB2") \
@@ -236,7 +236,7 @@ def _safety(name):
 
 
 _ALL_UNITS = ["take_range", "sort_take", "split_order", "window_frame", "dialect_select", "ident_quote", "ids_names", "toposort", "rq_tables",
-              "select_shape", "span_units", "sql_prec", "prql_prec", "literals", "set_ops", "desugar", "resolve_guards", "lex_strings", "limit_clause", "static_eval", "operator_tpl", "rel_names", "lower_cols", "vec_utils", "group_take", "flatten_sort", "star_exclude", "std_arity", "limit_select", "rq_shape", "star_cols", "func_env", "json_lits", "cte_define", "type_meet", "fmt_strings", "concat_ops", "sstring_query", "sstring_cols", "lineage_except", "sort_infer", "setop_pairs", "setops_reach", "tuple_unpack", "resolver_unwraps", "name_lookup", "frame_decls", "select_cols", "lower_transform", "sort_names", "positional_map", "fmt_interp", "datetime_lit", "lex_numbers", "rq_fold", "dialect_flags", "cid_inline", "module_names", "compose_errors", "lex_end_expr", "fmt_names", "header_args", "literal_rows", "tuple_helpers", "pipeline_types", "lower_ident", "sql_templates", "interp_ident", "table_instance", "fmt_width"]
+              "select_shape", "span_units", "sql_prec", "prql_prec", "literals", "set_ops", "desugar", "resolve_guards", "lex_strings", "limit_clause", "static_eval", "operator_tpl", "rel_names", "lower_cols", "vec_utils", "group_take", "flatten_sort", "star_exclude", "std_arity", "limit_select", "rq_shape", "star_cols", "func_env", "json_lits", "cte_define", "type_meet", "fmt_strings", "concat_ops", "sstring_query", "sstring_cols", "lineage_except", "sort_infer", "setop_pairs", "setops_reach", "tuple_unpack", "resolver_unwraps", "name_lookup", "frame_decls", "select_cols", "lower_transform", "sort_names", "positional_map", "fmt_interp", "datetime_lit", "lex_numbers", "rq_fold", "dialect_flags", "cid_inline", "module_names", "compose_errors", "lex_end_expr", "fmt_names", "header_args", "literal_rows", "tuple_helpers", "pipeline_types", "lower_ident", "sql_templates", "interp_ident", "table_instance", "fmt_width", "span_frame"]
 
 
 def _c12_split_order(n):
